@@ -43,6 +43,9 @@ type SpecP struct {
 	TemplateVolumes int `json:"template_volumes,omitempty"`
 	// SelExpr: the selector uses matchExpressions only (no matchLabels)
 	SelExpr bool `json:"sel_expr,omitempty"`
+	// RichTemplates: the templates of the history differ in more than an image: odd-numbered ones ADD an annotation, a
+	// node selector, a toleration and a second container that even-numbered ones do not have
+	RichTemplates bool `json:"rich_templates,omitempty"`
 	// SelExtra 1-3: matchLabels plus an Exists / NotIn / two-valued In requirement
 	SelExtra int `json:"sel_extra,omitempty"`
 	// ClaimLabels: claim templates carry labels of their own
@@ -120,7 +123,7 @@ const (
 	OpRestart
 	OpEditLimit
 	OpEditStrategy
-	OpSetRecreate      // the set is deleted and re-created with a new UID (API only; caches lag until refreshed)
+	OpSetRecreate      // the set is deleted and re-created with a new UID (API only; caches lag until refreshed); b >= 100: orphaning delete, new service and claim list
 	OpSetRemove        // the set disappears from the API (caches lag)
 	OpAddOrphanPod     // somebody creates an unowned pod named S-<a> whose labels match the selector
 	OpOrphanPod        // the owner references of pod a are stripped (orphaning delete of a previous owner, manual edit)
@@ -206,6 +209,36 @@ func (o Op) String() string {
 // object construction
 
 func tmplImage(t int) string { return fmt.Sprintf("img:%d", t) }
+
+// setTmpl makes template number t the set's template: always another image; with rich templates the odd-numbered ones
+// carry fields the even-numbered ones lack (so that moving between them adds and removes keys, not just changes values).
+func setTmpl(x *asv1.StatefulSet, rich bool, t int) {
+	tp := &x.Spec.Template
+	tp.Spec.Containers[0].Image = tmplImage(t)
+	if !rich {
+		return
+	}
+	for k := range tp.Annotations {
+		if strings.HasPrefix(k, "cfg/") {
+			delete(tp.Annotations, k)
+		}
+	}
+	if len(tp.Annotations) == 0 {
+		tp.Annotations = nil
+	}
+	tp.Spec.NodeSelector = nil
+	tp.Spec.Tolerations = nil
+	tp.Spec.Containers = tp.Spec.Containers[:1]
+	if t%2 == 1 {
+		if tp.Annotations == nil {
+			tp.Annotations = map[string]string{}
+		}
+		tp.Annotations[fmt.Sprintf("cfg/%d", t)] = "on"
+		tp.Spec.NodeSelector = map[string]string{"pool": fmt.Sprintf("p%d", t)}
+		tp.Spec.Tolerations = []corev1.Toleration{{Key: "dedicated", Operator: corev1.TolerationOpEqual, Value: fmt.Sprintf("t%d", t), Effect: corev1.TaintEffectNoSchedule}}
+		tp.Spec.Containers = append(tp.Spec.Containers, corev1.Container{Name: "sidecar", Image: fmt.Sprintf("side:%d", t), TerminationMessagePath: "/dev/termination-log", TerminationMessagePolicy: corev1.TerminationMessageReadFile, ImagePullPolicy: corev1.PullIfNotPresent})
+	}
+}
 
 func (s SpecP) selectorLabels() map[string]string { return map[string]string{"app": s.Name} }
 
@@ -308,8 +341,8 @@ func applySpec(set *asv1.StatefulSet, s SpecP) {
 
 func newSet(s SpecP, tmpl int) *asv1.StatefulSet {
 	set := baseSet(NS, s.Name, 0)
-	set.Spec.Template.Spec.Containers[0].Image = tmplImage(tmpl)
 	applySpec(set, s)
+	setTmpl(set, s.RichTemplates, tmpl)
 	return set
 }
 
@@ -455,6 +488,8 @@ type Sys struct {
 	Trace []func() string
 	// OnRecord is invoked after every reconcile (monitors)
 	OnRecord func(r *sim.Record, op *Op)
+	// queueBurst: how many queued reconciles one closing round may run (0 = 64)
+	queueBurst int
 	// RemovedClaims: claims the user (not the controller) deleted during the history
 	RemovedClaims map[string]bool
 	// Fault2Hit: the last reconcile's second same-reconcile fault was reached
@@ -502,7 +537,7 @@ func BuildWorld(rep Rep, w *World) *Sys {
 	c.Put(set)
 	for i, t := range w.Hist {
 		if i > 0 {
-			c.UpdateSet(NS, s.Name, func(x *asv1.StatefulSet) { x.Spec.Template.Spec.Containers[0].Image = tmplImage(t) })
+			c.UpdateSet(NS, s.Name, func(x *asv1.StatefulSet) { setTmpl(x, w.Spec.RichTemplates, t) })
 		}
 		c.RefreshAll()
 		r := c.Reconcile(s.Key)
@@ -757,7 +792,7 @@ func (s *Sys) envOp(k, a, b int) {
 		})
 	case OpEditTemplate:
 		t := abs(a) % 4
-		c.UpdateSet(NS, s.Name, func(x *asv1.StatefulSet) { x.Spec.Template.Spec.Containers[0].Image = tmplImage(t) })
+		c.UpdateSet(NS, s.Name, func(x *asv1.StatefulSet) { setTmpl(x, s.W != nil && s.W.Spec.RichTemplates, t) })
 		s.logf("user: template=%d", t)
 	case OpEditPartition:
 		v := int32(abs(a) % 8)
@@ -931,6 +966,38 @@ func (s *Sys) envOp(k, a, b int) {
 				}
 				n.Spec.Template.Labels["era"] = era
 				how = ", selector now " + metav1.FormatLabelSelector(n.Spec.Selector)
+			}
+			if b >= 100 {
+				// the documented way of changing the immutable fields: delete with --cascade=orphan (the garbage collector
+				// strips the dependents' owner references), create again with another governing service and claim list
+				k := b - 100
+				for _, p := range c.PodsIn(NS) {
+					if isControlledBy(p.OwnerReferences, old.UID) {
+						p.OwnerReferences = nil
+						c.Put(p)
+					}
+				}
+				for _, rv := range c.Revs() {
+					if rv.Namespace == NS && isControlledBy(rv.OwnerReferences, old.UID) {
+						rv.OwnerReferences = nil
+						c.Put(rv)
+					}
+				}
+				n.Spec.ServiceName = n.Spec.ServiceName + "-renamed"
+				switch k % 3 {
+				case 1:
+					n.Spec.VolumeClaimTemplates = append(n.Spec.VolumeClaimTemplates, corev1.PersistentVolumeClaim{
+						ObjectMeta: metav1.ObjectMeta{Name: fmt.Sprintf("added%d", len(n.Spec.VolumeClaimTemplates))},
+						Spec: corev1.PersistentVolumeClaimSpec{
+							AccessModes: []corev1.PersistentVolumeAccessMode{corev1.ReadWriteOnce},
+							Resources:   corev1.ResourceRequirements{Requests: corev1.ResourceList{corev1.ResourceStorage: resource.MustParse("1Gi")}},
+						}})
+				case 2:
+					if l := len(n.Spec.VolumeClaimTemplates); l > 0 {
+						n.Spec.VolumeClaimTemplates = n.Spec.VolumeClaimTemplates[:l-1]
+					}
+				}
+				how += fmt.Sprintf(", dependents orphaned, service now %q, %d claim templates", n.Spec.ServiceName, len(n.Spec.VolumeClaimTemplates))
 			}
 			c.Put(n)
 			s.logf("user: set deleted and re-created (new uid %s%s)", c.Set(NS, s.Name).UID, how)
@@ -1156,6 +1223,7 @@ func genSpecSized(rt *rapid.T, maxR int, big bool) SpecP {
 	if s.Claims > 0 {
 		s.ClaimLabels = rapid.IntRange(0, 2).Draw(rt, "claimLabels") == 0
 	}
+	s.RichTemplates = rapid.IntRange(0, 2).Draw(rt, "richTemplates") == 0
 	return s
 }
 
@@ -1360,7 +1428,11 @@ func (s *Sys) ConvergeEvents(maxRounds int) (fixed bool, rounds int) {
 	for i := 0; i < maxRounds; i++ {
 		changed := s.SyncCachesNotify()
 		worked := false
-		for n := 0; n < 64 && s.C.QueueLen() > 0; n++ {
+		burst := 64
+		if s.queueBurst > 0 {
+			burst = s.queueBurst
+		}
+		for n := 0; n < burst && s.C.QueueLen() > 0; n++ {
 			op := &Op{K: OpReconcile, Refresh: 1, queued: true}
 			r := s.C.ReconcileNextQueued()
 			if r == nil {
